@@ -69,6 +69,14 @@ def relabellings(rnd, lines):
     for shift in (rnd.randint(1, 400), -(min(nums) + rnd.randint(1, 50))):
         if max(nums) + shift < 9999 and min(nums) + shift > -999:
             out.append(("shift%+d" % shift, [pdbgen.setcols(l, 22, 26, "%4d" % (int(l[22:26]) + shift)) if pdbgen.is_atom(l) else l for l in lines]))
+    # adjacent chain letters with numbers 1000 apart: keys built arithmetically from chain code and number coincide
+    if len(chains) >= 2:
+        adj = dict(zip(chains, "KLMNOP"))
+        first = chains[0]
+        cn0 = [int(l[22:26]) for l in lines if pdbgen.is_atom(l) and l[21] == first]
+        if max(cn0) + 1000 < 9999:
+            out.append(("chains-adjacent+first-chain+1000",
+                        [pdbgen.setcols(pdbgen.setcols(l, 22, 26, "%4d" % (int(l[22:26]) + (1000 if l[21] == first else 0))), 21, 22, adj[l[21]]) if pdbgen.is_atom(l) else l for l in lines]))
     # shift one chain only, by an amount that makes chain code and number coincide for keys built arithmetically from both
     # (multiples of 1000, differences of chain code points times 1000) or by an arbitrary amount
     if len(chains) >= 1:
